@@ -48,7 +48,7 @@ func main() {
 	run := lib.ParseArgs()
 	elaenv.InitLog(run.Out)
 	rng := lib.NewRng(run.Seed)
-	st := lib.NewStats("C30", "real regnet BlockChain + DPoS State (fixture) with the State's guard heights lowered (CRCOnlyDPOSHeight 1-3, RevertToPOWStartHeight 7-9): trunk of 8-14 blocks, one fork of 1-11 blocks starting 1-10 below the tip (across LIH), consensus mode per block: all DPoS / all PoW / one switch either way (with or without the resume condition), optionally one context-invalid block in the fork, fork delivered in order or as orphans first. nontrivial = history with LIH > 0 and a fork heavier than the trunk; distinct by observation log")
+	st := lib.NewStats("C30", "real regnet BlockChain + DPoS State (fixture) with the State's guard heights lowered (CRCOnlyDPOSHeight 1-3, RevertToPOWStartHeight 7-9): trunk of 8-14 blocks, one fork of 1-11 blocks starting 1-10 below the tip (across LIH), consensus mode per block: all DPoS / all PoW / one switch either way (with or without the resume condition), optionally one context-invalid block in the fork, fork delivered in order or as orphans first; plus persistent forks: DPoS then PoW (LIH frozen), a side chain forking at or up to 3 below LIH that keeps growing block by block until it is 3+ higher than the trunk. nontrivial = history with LIH > 0 and a fork heavier than the trunk; distinct by observation log")
 	sh := &lib.Shards{Dir: run.Out, Imports: "From ELA Require Import corr.C30_corr.", CaseType: "C30_corr.case",
 		Mismatch: "C30_corr.mismatches", Scope: "Z", PerShard: 8}
 	id := 0
@@ -143,6 +143,28 @@ func main() {
 	doHist(mk("resume", build(14, 12, 3, 0, func(h int) (bool, bool) { return h >= 10, h == 11 }, allDpos), 1, 7, order(17)))
 	// below CRCOnlyDPOSHeight the guard is off
 	doHist(mk("guard-off-low", build(5, 1, 5, 0, allDpos, allDpos), 8, 9, order(10)))
+
+	// ---- persistent forks below a frozen LIH: DPoS up to height sw (LIH follows
+	// at sw-6), then PoW (LIH frozen at L), the trunk goes on for g blocks; a
+	// side chain forks at L-r (r = 0..3, at or below L) and keeps growing,
+	// block after block, until it is r+3 higher than the trunk.  Every attempt
+	// must be refused: the fork point never moves.
+	persistent := func(name string, sw, g, r int, rs uint32) {
+		L := sw - 6
+		if r > L {
+			r = L
+		}
+		trunk := sw + g
+		f := L - r
+		mt := func(h int) (bool, bool) { return h < sw, false }
+		bs := build(trunk, f, trunk-f+r+3, 0, mt, allPow)
+		doHist(mk(name, bs, 1, rs, order(len(bs))))
+	}
+	persistent("frozen-lih-persistent-fork", 10, 3, 2, 7)
+	for i := 0; i < run.N(4, 150); i++ {
+		r := rng.Fork()
+		persistent(fmt.Sprintf("persist-%d", i), r.Range(9, 14), r.Range(1, 5), r.Range(0, 3), uint32(r.Range(7, 8)))
+	}
 
 	// ---- generated
 	n := run.N(40, 1200)
